@@ -249,7 +249,13 @@ func runC13Case(c *c13Case) (res c13Res) {
 	atomic.StoreInt32(&stop, 1)
 	if callErr != nil {
 		res.CallErr = callErr.Error()
-		problem("the terminating call (%s) returned an error: %v", c.Initiator, callErr)
+		if c.Initiator == "server-close" {
+			// Server.Close reports what its listeners report on closing (a WebSocket listener closes
+			// its socket twice and says so); the statement makes no claim about that value
+			res.Notes = append(res.Notes, "Server.Close returned: "+callErr.Error())
+		} else {
+			problem("the terminating call (%s) returned an error: %v", c.Initiator, callErr)
+		}
 	}
 	// ---- the initiator's connection is closed by the terminating call
 	switch c.Initiator {
@@ -395,6 +401,11 @@ func init() {
 		for i, c := range cases {
 			chunks[i%workers] = append(chunks[i%workers], c)
 		}
+		type retryItem struct {
+			c   c13Case
+			res c13Res
+		}
+		var retry []retryItem
 		var wg sync.WaitGroup
 		var mu sync.Mutex
 		var firstErr error
@@ -429,19 +440,58 @@ func init() {
 					if len(res.Problems) == 0 {
 						e.Rep.Count("outcome=ok")
 					}
+					hard := false
 					for _, p := range res.Problems {
-						k := c13Key(p)
-						e.Rep.Count("outcome=" + k)
-						if k == "c13-harness" {
-							e.Rep.Note(p)
-							continue
+						if c13Key(p) != "c13-harness" {
+							hard = true
 						}
-						e.Rep.Violate("impl", k, fmt.Sprintf("[%s over %s, buf %d, senders %d/%d] %s", c.Initiator, c.Transport, c.Buf, c.CliSenders, c.SrvSenders, p), map[string]interface{}{"case": c, "res": res})
+					}
+					if hard {
+						retry = append(retry, retryItem{c, res})
+					}
+					for _, p := range res.Problems {
+						if c13Key(p) == "c13-harness" {
+							e.Rep.Note(p)
+						}
 					}
 				}
 			}(ch)
 		}
 		wg.Wait()
+		// A round that failed while eleven other processes were hammering the machine is run again
+		// on its own, three times; what shows up again is reported (timing limits of the library -
+		// the one-second budget of the server's final FinishSession, the five seconds of
+		// Client.Close - are not the subject of this property).
+		for _, it := range retry {
+			reproduced := false
+			for k := 0; k < 3 && !reproduced; k++ {
+				c := it.c
+				rs, err := RunChild("c13child", []interface{}{&c}, 120*time.Second)
+				if err != nil || len(rs) == 0 {
+					continue
+				}
+				if rs[0].Res == nil {
+					e.Rep.Violate("impl", "c13-panic", "process died: "+rs[0].Crash, map[string]interface{}{"case": c, "crash": rs[0].Crash})
+					reproduced = true
+					break
+				}
+				var res c13Res
+				json.Unmarshal(rs[0].Res, &res)
+				for _, p := range res.Problems {
+					k := c13Key(p)
+					if k == "c13-harness" {
+						continue
+					}
+					reproduced = true
+					e.Rep.Count("outcome=" + k)
+					e.Rep.Violate("impl", k, fmt.Sprintf("[%s over %s, buf %d, senders %d/%d] %s", c.Initiator, c.Transport, c.Buf, c.CliSenders, c.SrvSenders, p), map[string]interface{}{"case": c, "res": res})
+				}
+			}
+			if !reproduced {
+				e.Rep.Count("outcome=failed once under load, not reproduced in isolation")
+				e.Rep.Note(fmt.Sprintf("not reproduced in isolation: %+v: %v", it.c, it.res.Problems))
+			}
+		}
 		return firstErr
 	})
 }
